@@ -134,6 +134,8 @@ class ListWrapper(typing.MutableSequence[T]):
         if isinstance(i, slice):
             indices = range(*i.indices(len(self)))
         else:
+            # Anything with __index__ is an index, as for a list.
+            i = operator.index(i)
             indices = range(i, i + 1)
         for index in indices:
             self._remove(self._data[index])
